@@ -33,6 +33,7 @@ type ConsumerApp struct {
 func NewConsumerApp() *ConsumerApp {
 	app := appConsumer.New(log.NewNopLogger(), dbm.NewMemDB(), nil, true, simtestutil.EmptyAppOptions{})
 	ca := &ConsumerApp{CApp: app, K: app.ConsumerKeeper}
+	registerApp(app)
 	ca.base = app.NewUncachedContext(false, WithHeader(sdk.Context{}, "pristine", 0, GenesisTime).BlockHeader())
 	return ca
 }
